@@ -17,7 +17,6 @@ package jobs
 import (
 	"context"
 	"errors"
-	"math"
 	"reflect"
 	"sync"
 	"time"
@@ -230,11 +229,12 @@ func (pipeline *IncrementalPipeline) sync(job *job, ctx context.Context) (int, e
 						transformTS := time.Now()
 
 						parallelisms := pipeline.transform.getParallelism()
-						if len(entities) < parallelisms {
+						if parallelisms < 1 || len(entities) < parallelisms {
 							parallelisms = 1
 						}
 
-						psize := int(math.Round(float64(len(entities)) / float64(parallelisms)))
+						// ceil division, so that parallelisms * psize covers all entities
+						psize := (len(entities) + parallelisms - 1) / parallelisms
 						workResults := make([]presult, parallelisms)
 
 						local := func(workId int, lentities []*server.Entity, wg *sync.WaitGroup) {
@@ -263,8 +263,11 @@ func (pipeline *IncrementalPipeline) sync(job *job, ctx context.Context) (int, e
 							from := index
 							to := index + psize
 
-							if to >= len(entities) {
-								to = index + (len(entities) - index)
+							if from > len(entities) {
+								from = len(entities)
+							}
+							if to > len(entities) {
+								to = len(entities)
 							}
 
 							chunk := make([]*server.Entity, to-from)
